@@ -43,7 +43,7 @@ for c in $checks; do
   out[$c]=$rc
   echo "check $c rc=$rc  $(grep -c '^VIOLATION' $dst/check_$c.txt) violation line(s): $(grep '^  G' $dst/check_$c.txt | sed 's/.*\[//; s/\]//' | head -3 | tr '\n' ' ')"
 done
-git -C /repo checkout -- . ; git -C /repo status --short; git -C /verif checkout -- evidence 2>/dev/null
+git -C /repo checkout -- . ; git -C /repo clean -fdq -- cmd shared; git -C /repo status --short; git -C /verif checkout -- evidence 2>/dev/null
 python3 - "$name" "$prop" "$res_demo_without" "$res_demo_with" "$res_build" "$checks" <<PY
 import json,sys,os
 name,prop,dw,dwi,b,checks=sys.argv[1:7]
